@@ -21,7 +21,8 @@ RULE = ('histories of rewiring operations over a universe of AbstractUnit subcla
         'operation of two finite alphabets (empty 3-unit universe; connected 4-unit universe) to depth 1 (quick) / '
         '2 (thorough), plus every alphabet operation after random reachable prefixes. Random part: histories of a '
         'target length up to ~55 operations generated adaptively on the real objects: a proposed operation that '
-        'the code rejects or that leaves the stated preconditions (Python monitor on the real objects) is dropped '
+        'the code rejects or that leaves the stated preconditions (Python monitor on the real objects; for single-list '
+        'calls only if a reading of the call\'s own arguments agrees, so the code under test cannot veto an input) is dropped '
         'and generation continues, so the histories are as long as stated and almost entirely judged by the '
         'oracle; 30% end with a few unfiltered operations, 12% are plain histories that stop at the first '
         'rejected call. A case is non-trivial when at least one operation changed the connectivity; distinct = '
@@ -1000,6 +1001,36 @@ def gen_case_plain(rng, n_units, n_streams, length):
     return Case(ops, {'random': True, 'plain': True})
 
 
+def user_level_pre(U, line):
+    """The stated precondition of a single-list operation, read off the ARGUMENTS of the call on the real
+    objects, before the call and without looking at what the code does inside: True / False, or None for
+    operations whose preconditions concern what they do internally (unit-level operations, slices).
+    The generator uses it so that the code under test cannot talk an in-precondition call out of a history:
+    an operation is dropped as 'outside the preconditions' only if this reading agrees."""
+    t = line.split(' ')
+    op = t[0]
+    try:
+        if op in ('set', 'portset'):
+            if t[4] == 'none': return True
+            x = U.ref(t[4]); return not any(y is x for y in U.seq(t[1], int(t[2]))._streams)
+        if op == 'pipe_s_i_u':
+            x = U.ref(t[1]); return not any(y is x for y in U.seq('i', int(t[3]))._streams)
+        if op == 'pipe_u_i_s':
+            x = U.ref(t[3]); return not any(y is x for y in U.seq('o', int(t[1]))._streams)
+        if op == 'rep':
+            if t[4] == 'none': return True
+            x = U.ref(t[4]); return not any(y is x for y in U.seq(t[1], int(t[2]))._streams)
+        if op in ('app', 'ins', 'ext'):
+            seq = U.seq(t[1], int(t[2]))
+            if seq._fixed_size: return None
+            xs = U.refs(t[3]) if op == 'ext' else [U.ref(t[3] if op == 'app' else t[4])]
+            attr = '_sink' if t[1] == 'i' else '_source'
+            return all(getattr(x, attr) is None for x in xs) and len({id(x) for x in xs}) == len(xs)
+    except Exception:
+        return None
+    return None
+
+
 def gen_case(rng, n_units, n_streams, length, tail=0.3):
     """a history of `length` operations that the code accepts and that stay inside the stated
     preconditions (judged by the Python monitor on the real objects): a proposed operation that raises
@@ -1016,9 +1047,12 @@ def gen_case(rng, n_units, n_streams, length, tail=0.3):
         for l in ops: V.apply(l)
         return V
 
+    left = False       # the monitor says the history left the preconditions although the call itself was inside
+
     def attempt(line):
-        nonlocal U
+        nonlocal U, left
         before, nu = U.show(), len(U.units)
+        expect = user_level_pre(U, line)
         try:
             U.apply(line)
         except ErrorInOp:
@@ -1027,6 +1061,11 @@ def gen_case(rng, n_units, n_streams, length, tail=0.3):
             if U.show() != before or len(U.units) != nu: U = rebuild()
             return False
         if not MON.pre:
+            if expect is True:
+                # the call is inside the stated preconditions, yet a primitive operation the code performed
+                # for it was not: keep it — the run will judge it (model flag still on) — and stop here
+                ops.append(line); left = True
+                return True
             U = rebuild()
             return False
         ops.append(line)
@@ -1039,9 +1078,10 @@ def gen_case(rng, n_units, n_streams, length, tail=0.3):
         for _ in range(6):
             if attempt(gen_unit(rng, U, sh)): break
     n0, tries = len(ops), 0
-    while len(ops) - n0 < length and tries < 6 * length + 30:
+    while len(ops) - n0 < length and tries < 6 * length + 30 and not left:
         tries += 1
         attempt(gen_op(rng, U))
+    if left: return Case(ops, {'random': True, 'target': length})
     if rng.random() < tail:
         for _ in range(rng.randrange(1, 4)):
             line = gen_op(rng, U)
@@ -1102,6 +1142,10 @@ def alphabet():
         for s in S[:3] + ['m0']:
             ops.append(f'pipe_s_u {s} {u}'); ops.append(f'pipe_u_s {u} {s}')
         ops.append(f'pipe_ls_u s0,s1 {u}'); ops.append(f'pipe_u_ls {u} s3'); ops.append(f'pipe_u_ls {u} s3,m0')
+        # `stream - i - unit`, `unit ** i ** stream`: in range, at the end, past the end
+        for i in (0, 1, 2, 3):
+            ops.append(f'pipe_s_i_u s0 {i} {u}'); ops.append(f'pipe_u_i_s {u} {i} s0')
+            ops.append(f'pipe_s_i_u s1 {i} {u}'); ops.append(f'pipe_u_i_s {u} {i} s1')
         ops.append(f'own {u} {(u + 1) % 3}')
         for v in range(3):
             if v != u:
@@ -1157,6 +1201,10 @@ def alphabet2():
         for s in ['s1', 's2', 's3', 'm1']:
             ops.append(f'pipe_s_u {s} {u}'); ops.append(f'pipe_u_s {u} {s}')
         ops.append(f'own {u} {(u + 1) % 4}')
+        # pipe notation with an index: streams that are docked at another unit, index in range / at the end / past it
+        for i in (0, 1, 2, 3):
+            for s in ('s0', 's1', 's2', 's4'):
+                ops.append(f'pipe_s_i_u {s} {i} {u}'); ops.append(f'pipe_u_i_s {u} {i} {s}')
         for k in 'io':
             ops.append(f'set {k} {u} -1 s3'); ops.append(f'pop {k} {u} -1')
             ops.append(f'portset {k} {u} 0 s3'); ops.append(f'portset {k} {u} 0 m1')
